@@ -99,6 +99,10 @@ type hres struct {
 
 const witnessPrefix = "witness-"
 
+// stallTokenTimeout is the token timeout of the environments in which a
+// non-acknowledging subscriber holds up publishers.
+func stallTokenTimeout() time.Duration { return 2 * time.Second * ev.Slow() }
+
 func runCase(c *Case) (*verdict, map[string]int) {
 	stats := map[string]int{}
 	bk.WaitNoLibGoroutines(0, time.Second)
@@ -110,11 +114,17 @@ func runCase(c *Case) (*verdict, map[string]int) {
 		if c.Env == "kill-timeout" {
 			m.KillTimeout = time.Nanosecond
 		}
-		if c.Env == "slow-subscriber" {
+		if c.Env == "slow-subscriber" || c.Env == "stalled-publisher" {
 			// small queue and window: a subscriber that stops acknowledging makes
-			// publishers wait in the backend (documented) until it goes away
+			// publishers wait in the backend (documented) until it goes away -
+			// by itself, or because the broker gives up on it after the token
+			// timeout. A subscriber that is also publishing cannot even notice
+			// that its peer has gone (its processor waits for the backend), so
+			// the token timeout is what bounds that stall: it has to lie well
+			// inside the liveness ceiling.
 			m.SessionQueueSize = 4
 			m.ClientInflightMessages = 2
+			m.ClientTokenTimeout = stallTokenTimeout()
 		}
 	})
 	shut := false
@@ -273,6 +283,35 @@ func runCase(c *Case) (*verdict, map[string]int) {
 			}
 			return
 		}
+		if c.Env == "stalled-publisher" && i == 0 {
+			// connection 0 subscribes to the witness stream, never acknowledges
+			// and keeps publishing: once its queue is full the witness publisher
+			// waits for it inside the backend while its own processor waits for
+			// the backend - nobody reads its connection any more. Only the token
+			// timeout of its dequeuer ends that; the peer stays until then.
+			p.AutoAck = false
+			for _, f := range frames {
+				if !p.C.SendRaw(f) {
+					break
+				}
+			}
+			pub := refcodec.Encode(&refcodec.Packet{Type: refcodec.PUBLISH, Topic: "h/x", Payload: []byte("stall")})
+			deadline := time.Now().Add(stallTokenTimeout() + ev.Ceiling())
+			for n := 0; !p.EOF && time.Now().Before(deadline); n++ {
+				if n < 50 {
+					p.C.SendRaw(pub)
+				}
+				p.PumpWait(time.Millisecond)
+			}
+			if p.EOF {
+				results[i].rejects = 1 // the broker ended the stall itself
+			}
+			p.Drop()
+			if !b.WaitClosed(bconn) {
+				results[i].v = failf(b, "liveness/client-not-terminated", "the subscriber that neither acknowledged nor stopped publishing: its broker side never terminated (token timeout %v)\n--- library goroutines ---\n%s", stallTokenTimeout(), strings.Join(bk.LibGoroutines(), "\n\n"))
+			}
+			return
+		}
 		for _, f := range frames {
 			if !p.C.SendRaw(f) {
 				break
@@ -294,7 +333,7 @@ func runCase(c *Case) (*verdict, map[string]int) {
 		p.Pump()
 		p.Drop()
 		if !b.WaitClosed(bconn) {
-			results[i].v = failf(b, "liveness/client-not-terminated", "broker side of hostile connection %d did not terminate after the peer closed", i)
+			results[i].v = failf(b, "liveness/client-not-terminated", "broker side of hostile connection %d did not terminate after the peer closed\n--- library goroutines ---\n%s", i, strings.Join(bk.LibGoroutines(), "\n\n"))
 		}
 	}
 	var hw sync.WaitGroup
@@ -322,7 +361,9 @@ func runCase(c *Case) (*verdict, map[string]int) {
 		if results[i].v != nil {
 			return results[i].v, stats
 		}
-		if results[i].rejects > 0 {
+		if results[i].rejects > 0 && c.Env == "stalled-publisher" {
+			stats["stalled-publisher-disconnected-by-token-timeout"]++
+		} else if results[i].rejects > 0 {
 			stats["publisher-waited-for-slow-subscriber"]++
 		}
 		if results[i].breakAt >= 0 {
@@ -570,15 +611,20 @@ func genCase(rt *rapid.T) *Case {
 	case 6:
 		c.Env = "slow-subscriber"
 		c.ReadLimit = 0
+	case 7:
+		if rapid.IntRange(0, 2).Draw(rt, "stalled") == 0 {
+			c.Env = "stalled-publisher"
+			c.ReadLimit = 0
+		}
 	}
 	n := rapid.IntRange(1, 5).Draw(rt, "conns")
 	for i := 0; i < n; i++ {
 		c.Conns = append(c.Conns, genConn(rt, ids))
 	}
-	if c.Env == "slow-subscriber" {
+	if c.Env == "slow-subscriber" || c.Env == "stalled-publisher" {
 		cp := refcodec.Encode(&refcodec.Packet{Type: refcodec.CONNECT, ProtoName: "MQTT", Level: 4, ClientID: "slow", Clean: rapid.Bool().Draw(rt, "slow_clean")})
 		sp := refcodec.Encode(&refcodec.Packet{Type: refcodec.SUBSCRIBE, ID: 1, Filters: []string{rapid.SampledFrom([]string{"w/priv", "#", "w/+"}).Draw(rt, "slow_filter")}, QoSs: []byte{byte(rapid.IntRange(1, 2).Draw(rt, "slow_qos"))}})
-		c.Conns[0] = HConn{Frames: []string{hex.EncodeToString(cp), hex.EncodeToString(sp)}, Desc: []string{describe(cp), describe(sp) + " then never acknowledges, leaves once a publisher waits"}}
+		c.Conns[0] = HConn{Frames: []string{hex.EncodeToString(cp), hex.EncodeToString(sp)}, Desc: []string{describe(cp), describe(sp) + map[string]string{"slow-subscriber": " then never acknowledges, leaves once a publisher waits", "stalled-publisher": " then never acknowledges and keeps publishing until the broker disconnects it"}[c.Env]}}
 	}
 	c.Concurrent = rapid.Bool().Draw(rt, "concurrent")
 	return c
@@ -601,7 +647,7 @@ func nontrivial(c *Case) bool {
 
 func TestC14(t *testing.T) {
 	run := ev.Start("C14", "exploration")
-	run.Rule("hostile scenarios: 1-5 hostile connections (sequential or concurrent, optionally sharing client ids) each sending up to 15 frames: packets a client may send with hostile field values (wildcard / NUL-bearing / empty / 65535-byte topics and filters, arbitrary ids), packets that are out of protocol for a client, mutated and truncated encodings, garbage and oversized length declarations, optionally with a small engine read limit; environments: none, KillTimeout=1ns (takeover fails in Setup), a subscriber (queue 4, window 2) that never acknowledges the witness stream and leaves once a publisher is stuck behind it, MemoryBackend.Close racing with the connections, the n-th call of one backend hook failing. Meanwhile a witness publisher streams numbered QoS 1 messages to a witness subscribed to '#' and one subscribed to a private topic. Oracle: the process survives; a connection that sent a protocol-breaking frame is closed; a connection that sent only admissible packets still answers PINGREQ; both witnesses receive every numbered message exactly once in order and stay connected; Terminate is called exactly once per successful Setup; Closed() fires for every connection; no library goroutine remains. non-trivial = some frame must be rejected, a boundary-sized field, or a hostile environment; distinct by case")
+	run.Rule("hostile scenarios: 1-5 hostile connections (sequential or concurrent, optionally sharing client ids) each sending up to 15 frames: packets a client may send with hostile field values (wildcard / NUL-bearing / empty / 65535-byte topics and filters, arbitrary ids), packets that are out of protocol for a client, mutated and truncated encodings, garbage and oversized length declarations, optionally with a small engine read limit; environments: none, KillTimeout=1ns (takeover fails in Setup), a subscriber (queue 4, window 2) that never acknowledges the witness stream and leaves once a publisher is stuck behind it, such a subscriber that also keeps publishing and never leaves (only the broker's token timeout, 2 s here, can end that stall), MemoryBackend.Close racing with the connections, the n-th call of one backend hook failing. Meanwhile a witness publisher streams numbered QoS 1 messages to a witness subscribed to '#' and one subscribed to a private topic. Oracle: the process survives; a connection that sent a protocol-breaking frame is closed; a connection that sent only admissible packets still answers PINGREQ; both witnesses receive every numbered message exactly once in order and stay connected; Terminate is called exactly once per successful Setup; Closed() fires for every connection; no library goroutine remains. non-trivial = some frame must be rejected, a boundary-sized field, or a hostile environment; distinct by case")
 	run.Assume("hostile peers' inbound data is drained (a subscriber that stops reading stalls the memory backend by documented design)", "at most 9 unreleased QoS 2 publishes and 60 publishes per hostile connection (flow control and the own-queue limit are documented behaviour)")
 	defer run.Finish(t)
 
